@@ -13,6 +13,8 @@ use serde_json::{Value, json};
 mod builder;
 mod circ;
 mod lang;
+mod lit;
+mod types;
 mod util;
 
 thread_local! {
@@ -28,6 +30,7 @@ fn handle(case: &Value) -> Value {
         "convert" => circ::convert(case),
         "builder_run" => builder::builder_run(case),
         "compile_eval" => lang::compile_eval(case),
+        "literal_check" => lit::literal_check(case),
         _ => json!({"error": format!("unknown op {op}")}),
     }
 }
